@@ -146,6 +146,7 @@ func errorHandled(f *ssa.Function, errVal ssa.Value) (bool, string) {
 
 func c03(c *Ctx) {
 	defer c03writesDecidedFromIndex(c)
+	defer c03pairedListsAgree(c)
 	P, R := c.P, c.R
 	R.Explain("R03.1", "T-SQL (engine of C08) restricted to the statements reachable from the message commands (Mailbox.Append/Copy/Move/Store/Expunge/Fetch, State.Create/Delete/Rename): valid against the schema and placeholder count = bound arguments for every batch size (both sides of the chunk limit).")
 	R.Explain("R03.2", "transaction shape: on any path of Mailbox.Copy/Move/Store/Expunge and State.Create/Delete/Rename at most one mutating commit wrapper (stateDBWrite/stateDBWriteResult) is executed, so a command answered NO/BAD is one rolled-back transaction.")
@@ -748,4 +749,32 @@ func c03writesDecidedFromIndex(c *Ctx) {
 		}
 	}
 	R.Min("R03.8", "functions of internal/state working inside a write transaction", n, 20)
+}
+
+// c03pairedListsAgree (R03.9): the two views of the message list a MOVE works on are the same list.
+func c03pairedListsAgree(c *Ctx) {
+	P, R := c.P, c.R
+	R.Explain("R03.9", "a MOVE adds exactly what it removes: wherever state.MoveMessagesFromMailbox is called, its list of id pairs (added to the destination) and its list of internal ids (removed from the source) are two views of one list - the internal ids are the first result of db.SplitMessageIDPairSlice applied to that very list of pairs; the remote ids the connector is told about and the count checked against the limits come from the same split.  Passing the unfiltered request list on one side re-creates in the destination a message another session has already expunged from the source.")
+	n := 0
+	for _, f := range c.funcsInPkg("internal/state", "internal/backend") {
+		for _, cs := range engine.Calls(f) {
+			sc := cs.Common().StaticCallee()
+			if sc == nil || engine.ShortName(sc) != "MoveMessagesFromMailbox" || engine.RecvNamed(sc) != nil || len(cs.Common().Args) < 6 {
+				continue
+			}
+			n++
+			pairs, internal := cs.Common().Args[4], cs.Common().Args[5]
+			why := ""
+			ex, ok := internal.(*ssa.Extract)
+			if !ok || ex.Index != 0 {
+				why = "the internal ids are not the first result of db.SplitMessageIDPairSlice"
+			} else if call, ok := ex.Tuple.(*ssa.Call); !ok || call.Call.StaticCallee() == nil || engine.ShortName(call.Call.StaticCallee()) != "SplitMessageIDPairSlice" {
+				why = "the internal ids are not the first result of db.SplitMessageIDPairSlice"
+			} else if call.Call.Args[0] != pairs {
+				why = "the internal ids are split from another list (" + valExpr(call.Call.Args[0], 0) + ") than the pairs that are added (" + valExpr(pairs, 0) + ")"
+			}
+			R.Check(why == "", "R03.9", c.name(f)+"|MoveMessagesFromMailbox lists", P.Pos(cs.Pos()), "pairs and internal ids are two views of one list", why+": the set added to the destination differs from the set removed from the source")
+		}
+	}
+	R.Min("R03.9", "calls of state.MoveMessagesFromMailbox", n, 1)
 }
